@@ -85,6 +85,7 @@ def gen(seed, idx, tier):
             v["device_used_before"] = {"steps": rnd.choice([2, 3]), "B": scen.r3(0.2 * scen.FIELD_FACTOR[fu_]), "terminal_psi": rnd.choice(["zero", "none"])}
     if not large and rnd.random() < 0.3:
         scn["device_moved"] = {"dx": rnd.choice([0.0, 0.7, -1.3, 2.5]), "dy": rnd.choice([0.4, -0.9, 1.7])}
+        scn["device_moved"]["dz"] = {2.5: 0.5, -1.3: -0.25}.get(scn["device_moved"]["dx"], 0.0)
     if screening:
         variants[1]["threads"] = 16
         variants[2]["threads"] = 16
